@@ -80,6 +80,8 @@ func writeTable(cfg tablegen.Cfg, min, max uint64, refs []refdb.Ref, logs []refd
 	return buf.Bytes()
 }
 
+// mkTable builds a table of n refs and n log entries. With tag "big" the log messages are
+// incompressible, so that log blocks deflate to more than the block size (the reader's retry path).
 func mkTable(cfg tablegen.Cfg, n int, ui uint64, tag string) ([]byte, []string, []byte) {
 	hs := cfg.HashSize()
 	var refs []refdb.Ref
@@ -97,7 +99,11 @@ func mkTable(cfg tablegen.Cfg, n int, ui uint64, tag string) ([]byte, []string, 
 			r.Kind, r.Peeled = 2, shared
 		}
 		refs = append(refs, r)
-		logs = append(logs, refdb.Log{Name: nm, UpdateIndex: ui, Old: tablegen.Oid("o", hs), New: tablegen.Oid(tag+"n"+nm, hs), Who: "w", Email: "e", Time: 100, TZ: 0, Message: tag + " update\n"})
+		msg := tag + " update\n"
+		if tag == "big" {
+			msg = tablegen.Keystream(nm, 60) + "\n"
+		}
+		logs = append(logs, refdb.Log{Name: nm, UpdateIndex: ui, Old: tablegen.Oid("o", hs), New: tablegen.Oid(tag+"n"+nm, hs), Who: "w", Email: "e", Time: 100, TZ: 0, Message: msg})
 	}
 	return writeTable(cfg, ui, ui, refs, logs), names, shared
 }
@@ -112,8 +118,13 @@ func fixtures() []*fixture {
 		{"reader/bs128", tablegen.Cfg{BlockSize: 128}, false},
 		{"reader/unaligned96", tablegen.Cfg{BlockSize: 96, Unaligned: true}, false},
 		{"reader/file-backed-s256", tablegen.Cfg{BlockSize: 256, SHA256: true}, true},
+		{"reader/oversize-log-blocks", tablegen.Cfg{BlockSize: 192}, false},
 	} {
-		d, names, oid := mkTable(f.cfg, 14, 3, "t")
+		tag := "t"
+		if strings.Contains(f.name, "oversize") {
+			tag = "big"
+		}
+		d, names, oid := mkTable(f.cfg, 14, 3, tag)
 		out = append(out, &fixture{Name: f.name, Data: [][]byte{d}, Cfg: f.cfg, File: f.file, names: names, oid: oid, hs: f.cfg.HashSize()})
 	}
 	cfg := tablegen.Cfg{BlockSize: 128}
@@ -698,7 +709,13 @@ func main() {
 	cov["evaluations"] = execs
 	cov["distinct_nontrivial"] = execs - combos
 	cov["combinations"] = combos
-	cov["fixtures"] = []string{fx[0].Name, fx[1].Name, fx[2].Name, fx[3].Name}
+	cov["fixtures"] = func() []string {
+		var n []string
+		for _, f := range fx {
+			n = append(n, f.Name)
+		}
+		return n
+	}()
 	cov["programs_menu"] = func() []string {
 		var n []string
 		for _, p := range ps {
@@ -710,7 +727,7 @@ func main() {
 	cov["race_detector_pass_supplementary"] = raceStatus
 	cov["distinct_outcomes_total"] = outcomes
 	cov["rule"] = "for each fixture (Reader over memory with 128-byte blocks, unaligned, file-backed sha256; Merged of three readers) every ordered pair of the 8 read programs and selected triples (thorough: all unordered triples without the long log scan) runs as goroutines sharing one object under the controlled scheduler, with scheduling points at every API call and every ReadBlock/ReadAt; ALL interleavings are explored (state cache on per-goroutine observation history + deep hash of the shared object). Non-trivial = every execution beyond the first of a combination (a different interleaving)"
-	cov["samples"] = []interface{}{fmt.Sprintf("%s: %s ‖ %s, all interleavings at ReadBlock granularity", fx[0].Name, ps[0].Name, ps[3].Name), fmt.Sprintf("%s: %s ‖ %s ‖ %s", fx[3].Name, ps[0].Name, ps[1].Name, ps[2].Name)}
+	cov["samples"] = []interface{}{fmt.Sprintf("%s: %s ‖ %s, all interleavings at ReadBlock granularity", fx[0].Name, ps[0].Name, ps[3].Name), fmt.Sprintf("%s: %s ‖ %s ‖ %s", fx[len(fx)-1].Name, ps[0].Name, ps[1].Name, ps[2].Name)}
 	cov["exhaustive"] = true
 	if *bindRep != "" {
 		if b, err := os.ReadFile(*bindRep); err == nil {
